@@ -120,8 +120,21 @@ impl<D: DataMut, B: Backend> SvpPPolToMut<B> for SvpPPol<D, B> {
     }
 }
 
-impl<D: Data, B: Backend> SvpPPol<D, B> {
+impl<D: DataRef, B: Backend> SvpPPol<D, B> {
+    /// Constructs an `SvpPPol` from raw parts.
+    ///
+    /// # Panics
+    ///
+    /// Panics if the buffer holds fewer than `n * cols` scalars or is not aligned for the scalar type.
     pub fn from_data(data: D, n: usize, cols: usize) -> Self {
+        super::znx_base::assert_from_data_fits(
+            "SvpPPol",
+            data.as_ref(),
+            n,
+            Some(cols),
+            size_of::<B::ScalarPrep>(),
+            align_of::<B::ScalarPrep>(),
+        );
         Self {
             data,
             n,
